@@ -1062,6 +1062,57 @@ func (x *c19) checkX4() {
 					hasKey = true
 				}
 			}
+			// every path that puts the key into the map also puts the trust anchors in:
+			// (a map built and written in one function) an entry carrying this fetch's
+			// key that can reach the Write on a path avoiding every anchors entry means
+			// a file set without ca.pem is published
+			for _, o := range x.origins(args[len(args)-1], wr.fr) {
+				mm, ok := o.v.(*ssa.MakeMap)
+				if !ok || mm.Parent() != wr.in.Parent() {
+					continue
+				}
+				var keyUps, anchUps []*ssa.MapUpdate
+				for _, rr := range refs(mm) {
+					mu, ok := rr.(*ssa.MapUpdate)
+					if !ok || mu.Map != ssa.Value(mm) {
+						continue
+					}
+					ku := x.sourcesOf(mu.Value, o.fr)
+					if ku.anchors {
+						anchUps = append(anchUps, mu)
+					}
+					if len(ku.gens) > 0 {
+						keyUps = append(keyUps, mu)
+					}
+				}
+				if len(anchUps) == 0 {
+					continue
+				}
+				avoid := map[*ssa.BasicBlock]bool{}
+				sameInstr := map[*ssa.MapUpdate]bool{}
+				for _, a := range anchUps {
+					avoid[a.Block()] = true
+					sameInstr[a] = true
+				}
+				for _, k := range keyUps {
+					if sameInstr[k] || avoid[k.Block()] {
+						continue
+					}
+					// from the key entry to the Write, never passing an anchors entry
+					reach := false
+					if k.Block() == wr.in.Block() && instrIndex(k) < instrIndex(wr.in) {
+						reach = true
+					}
+					for _, sb := range k.Block().Succs {
+						if reachableFrom(sb, avoid)[wr.in.Block()] {
+							reach = true
+						}
+					}
+					if reach {
+						badW = append(badW, "the file map can reach dir.Write with the key of this fetch but WITHOUT the trust anchors (the anchors entry at "+x.pos(anchUps[0])+" is skipped on some path): the published file set is incomplete")
+					}
+				}
+			}
 			// the trust anchors written next to the certificate are read after the
 			// issuer answered (anchors read before the request can be older than the
 			// certificate they are published with)
